@@ -294,6 +294,18 @@ class C07(core.Check):
                 [1, 1, 1, 1 if lead_eq else 0, 1 if lead_eq else 0, (1 if ok1 else 0) if lead_eq else None], "pins from %s" % n0)
             add("cross-file-open-" + n1.split("-mut-")[1], n1, ["T%d" % t0, "D" + dg0.hex().encode().hex(), "L%d" % total0, "o"],
                 [1, 1, 1, 1 if (lead_eq and ok1) else 0], "pins from %s" % n0)
+        # validated under pins taken from F0, then the file behind the descriptor is rewritten in place with F1, then the lead is read
+        for n1, d1, n0 in derived:
+            t0, dg0, total0, ok0 = info[n0]
+            i1 = info[n1]
+            if i1 is None:
+                continue
+            t1, dg1, total1, ok1 = i1
+            lead_eq = (t1 == t0 and dg1 == dg0 and total1 == total0)
+            pins = ["T%d" % t0, "D" + dg0.hex().encode().hex(), "L%d" % total0]
+            add("rewritten-after-validate", n0, pins + ["v", "W%d" % fidx[n1], "l"], [1, 1, 1, 1, None, 1 if lead_eq else 0], "validated %s, then %s behind the same descriptor" % (n0, n1))
+            add("rewritten-after-validate", n0, pins + ["v", "W%d" % fidx[n1], "v", "o"], [1, 1, 1, 1, None, 1 if lead_eq else 0, 1 if (lead_eq and ok1) else 0], "validated %s, then %s" % (n0, n1))
+            add("rewritten-after-validate", n0, pins[:2] + ["v", "v", "W%d" % fidx[n1], "l"], [1, 1, 1, 1, None, 1 if (t1 == t0 and dg1 == dg0) else 0])
         for (na, da), (nb, db) in zip(files, files[1:] + files[:1]):
             ta, dga, totala, oka = info[na]
             tb, dgb, totalb, okb = info[nb]
